@@ -1088,7 +1088,9 @@ func run(c *vh.Ctx) {
 		"the two bytes of NBSP, _; N=4 quick, 5 thorough) and random longer ones (grammar-directed numbers with decorations and junk; overflow/underflow edges); " +
 		"non-trivial = the implementation or the reference calls it numeric. (B) float64 values at the 2^53/2^63/subnormal/overflow edges and random bit patterns × 7 formats. " +
 		"(C) pairs of texts × every pair of provenances (field, field copy, getline variable/array element, $0, split element, ARGV, ENVIRON, Vars, computed number, computed string, " +
-		"constants, unset, NaN, Inf) × six operators × eight syntactic forms; non-trivial = an input-derived operand is involved. (D) CONVFMT/OFMT × numbers; FILENAME.")
+		"constants, unset, NaN, Inf) × six operators × eight syntactic forms; non-trivial = an input-derived operand is involved. (D) CONVFMT/OFMT × numbers; FILENAME. " +
+		"(E) histories: 2–5 records of 1–5 fields from a pool where string and numeric order differ (10 9 1e1 +5 010 …), FS blank or comma, after the probe of each record one of ~30 operations " +
+		"(assign $k/$0/NF, grow/shrink, sub/gsub, ++, getline into $k/$0/NF/var, plain getline then probe); every field of every FRESH record must compare by its own text; non-trivial = an operation precedes a later record.")
 	// A
 	checkStrings(c, corpusStrings, "corpus")
 	var all []string
@@ -1104,6 +1106,8 @@ func run(c *vh.Ctx) {
 	checkPrograms(c)
 	// D
 	checkFormats(c)
+	// E
+	checkHistory(c)
 	keys := []string{}
 	for _, k := range alphabet {
 		keys = append(keys, strconv.Quote(k))
